@@ -20,7 +20,7 @@ META = {
                 "N-point polytope grid is a prefix of every larger one; indices never rewritten; cache validated by node count",
                 "no hash-randomised iteration order, no mutable defaults, no module-level mutable state on these paths"],
     "not_decided": ["bit-identity of scipy/qhull/BLAS results across processes (trusted)"],
-    "trusted": ["numpy global generator: seed(c) followed by the same draws gives the same values", "CPython int/tuple hashing is not randomised"],
+    "trusted": ["scipy SphericalVoronoi.calculate_areas() sorts the vertex lists of `.regions` in place (lazy sort_vertices_of_regions)", "numpy global generator: seed(c) followed by the same draws gives the same values", "CPython int/tuple hashing is not randomised"],
     "assumptions": [],
 }
 
@@ -38,6 +38,42 @@ CONSTRUCTION = {"__init__", "gen_grid", "_gen_grid", "gen_and_time", "divide_edg
 EXTRA_MODULES = ["molgri.space.fullgrid", "molgri.space.utils", "molgri.space.translations"]
 
 
+def lazy_library_sort(ctx, repo):
+    """IDEMP: scipy's SphericalVoronoi.calculate_areas() first sorts the vertex lists of `sv.regions` IN PLACE (a lazy
+    sort_vertices_of_regions).  A cell model whose region getter hands out those lists (directly or through a shallow copy) returns them
+    in raw order before the first exact-area call and in cyclic order after it - unless the constructor has sorted them eagerly."""
+    ci = repo.cls("molgri.space.voronoi", "RotobjVoronoi")
+    init = ci.methods.get("__init__")
+    crt = ci.methods.get("_create_centers_vertices_regions")
+    ctx.instance("IDEMP")
+    if init is None or crt is None:
+        ctx.inconclusive("IDEMP", "C08.regions.sorted_once", "anchor vanished: RotobjVoronoi.__init__ / _create_centers_vertices_regions", "molgri/space/voronoi.py")
+        return
+    lazy_calls = [(fm, c) for cls_ in repo.module("molgri.space.voronoi").classes.values() for fm in cls_.methods.values()
+                  for c in ast.walk(fm.node) if isinstance(c, ast.Call) and isinstance(c.func, ast.Attribute) and c.func.attr == "calculate_areas"]
+    hands_out = any(isinstance(x, ast.Attribute) and x.attr == "regions" and "spherical_voronoi" in src(x.value) for x in ast.walk(crt.node))
+    if not lazy_calls or not hands_out:
+        ctx.ok("IDEMP", "C08.regions.sorted_once", "the cell model does not hand out the library's own region lists together with a lazy exact-area "
+               "call", ci.module.relpath)
+        return
+    eager = [c for c in ast.walk(init.node) if isinstance(c, ast.Call) and isinstance(c.func, ast.Attribute) and c.func.attr == "sort_vertices_of_regions"]
+    deep = any(isinstance(c, ast.Call) and src(c.func).split(".")[-1] == "deepcopy" and "regions" in src(c) for cls_ in ci.mro() for fm in cls_.methods.values()
+               for c in ast.walk(fm.node))
+    if eager:
+        sup = [c for c in ast.walk(init.node) if isinstance(c, ast.Call) and src(c.func) == "super().__init__"]
+        before = not sup or all(e_.lineno < sup[0].lineno for e_ in eager)
+        ctx.check(before, "IDEMP", "C08.regions.sorted_once", "the region vertex lists are sorted once, at construction, before they are stored: the "
+                  "lazy in-place sort inside calculate_areas() finds them sorted and changes nothing", init.where, src(eager[0])[:80],
+                  witness="the eager sort comes after the regions were stored")
+    elif deep:
+        ctx.ok("IDEMP", "C08.regions.sorted_once", "the stored regions are deep copies of the library's lists", init.where)
+    else:
+        ctx.violate("IDEMP", "C08.regions.sorted_once", "the region lists handed out by get_all_voronoi_regions() are scipy's own lists and are never "
+                    "sorted at construction: the first exact-area call (calculate_areas sorts them in place) changes what the region getter "
+                    "returns - raw vertex order before, cyclic order after", init.where, src(lazy_calls[0][1])[:80],
+                    witness="no sort_vertices_of_regions() in RotobjVoronoi.__init__, no deep copy of the regions")
+
+
 def run(ctx, repo, tier):
     funcs = []
     for mn in SCOPE:
@@ -52,6 +88,7 @@ def run(ctx, repo, tier):
                 funcs.append(f)
     for f in funcs:
         ctx.analysed(f)
+    lazy_library_sort(ctx, repo)
     # ------------------------------------------------------------ RNG
     ra = RngAnalysis(repo, funcs).run()
     n_sites = 0
